@@ -378,7 +378,7 @@ pub fn run(ctx: &mut Ctx) {
         ctx.rec.sample("miri", &format!("4 threads x 24 node ids: {:?}", logs.iter().map(|l| l.len()).collect::<Vec<_>>()));
         return;
     }
-    let ncase = if mode == "tsan" { 60 } else { ctx.n(400, 6000) };
+    let ncase = if mode == "tsan" { 60 } else { ctx.n(800, 10000) };
     // this shard's cases
     let mut mine: Vec<(u64, Case)> = vec![];
     for k in 0..ncase as u64 {
